@@ -21,7 +21,8 @@ EXPLANATION = (
     "(operator+index tokens over the allowed operator letters, the bare identity, the '*' and ' + ' separators, "
     "coefficient first and printed unrounded) is accepted by the parser's own regular expressions and position "
     "conventions; (D4) slot agreement of (qubit, op) pairs and real/imag parts across writer, reader and "
-    "PauliTerm.from_iterable; tuples restored for bitstrings, layers and connectivity."
+    "PauliTerm.from_iterable; tuples restored for bitstrings, layers and connectivity. "
+    "(D2p) a loader that branches on the source's type treats every kind of path its ensure_open-based siblings accept (str / os.PathLike) as a path; (D5o) no one-sided comparison decides whether an imaginary part is negligible."
 )
 RULE_TEXT = "instances = record keys per saver/loader pair, loaders, printer tokens, slots; distinct by (rule, construct)"
 ASSUMPTIONS = [
